@@ -305,8 +305,22 @@ func (s *Sess) exec(in ssa.Instruction, st *State) {
 		T := derefType(x.Addr.Type())
 		v := s.val(x.Val)
 		if v.place != nil {
-			s.unsupp("%s: interior pointer stored to memory", s.posOf(x.Pos()))
-			return
+			pt := v.place.typ
+			switch pt.Underlying().(type) {
+			case *types.Basic:
+				// address of a scalar field/element escapes into memory: modelled as a fresh cell
+				// holding a snapshot of the value (aliasing writes through it are not modelled;
+				// recorded as a per-function assumption)
+				r := s.define("snap", "Int", st.top)
+				st.top = s.define("top", "Int", fmt.Sprintf("(+ %s 1)", st.top))
+				key := cellRegion(pt)
+				s.setRegion(st, key, s.cellSort(pt), fmt.Sprintf("(store %s %s %s)", s.region(st, key, s.cellSort(pt)), r, s.readPlace(st, v.place)))
+				s.warnings = append(s.warnings, fmt.Sprintf("%s: address of a scalar field escapes; modelled as a snapshot cell", s.posOf(x.Pos())))
+				v = Val{t: r, typ: x.Val.Type()}
+			default:
+				s.unsupp("%s: interior pointer stored to memory", s.posOf(x.Pos()))
+				return
+			}
 		}
 		if addr.place == nil && s.nilcheck {
 			s.oblige(st, "nil", fmt.Sprintf("nil@%d", s.ord[in]), fmt.Sprintf("(distinct %s 0)", addr.t), x.Pos(), "nil dereference in store "+x.String())
@@ -507,7 +521,7 @@ func (s *Sess) exec(in ssa.Instruction, st *State) {
 			}
 			vals = append(vals, v)
 		}
-		s.rets = append(s.rets, retInfo{st: st.clone(), vals: vals, pos: x.Pos()})
+		s.rets = append(s.rets, retInfo{st: st.clone(), vals: vals, pos: x.Pos(), blk: x.Block().Index})
 	case *ssa.Panic:
 		allowed := "false"
 		if s.ct != nil {
@@ -650,7 +664,8 @@ func (s *Sess) makeIface(v Val, T types.Type) string {
 	bt := fmt.Sprintf("(%s %s)", box, v.t)
 	if !s.subDone["box:"+bt] {
 		s.subDone["box:"+bt] = true
-		s.assume(fmt.Sprintf("(= (%s %s) %s)", unbox, bt, v.t))
+		fact := fmt.Sprintf("(= (%s %s) %s)", unbox, bt, v.t)
+		s.global(func() { s.assume(fact) })
 	}
 	return fmt.Sprintf("(mk-iface %d %s)", tag, bt)
 }
@@ -713,9 +728,9 @@ func (s *Sess) implFacts(I types.Type) {
 		s.subDone[key] = true
 		f := s.implTerm(fmt.Sprintf("%d", s.tc.tags[k]), I)
 		if types.Implements(T, iface) {
-			s.assume(f)
+			s.global(func() { s.assume(f) })
 		} else {
-			s.assume(not(f))
+			s.global(func() { s.assume(not(f)) })
 		}
 	}
 }
@@ -831,6 +846,9 @@ func (s *Sess) execConvert(x *ssa.Convert, st *State) {
 			arr = fmt.Sprintf("(%s %s)", s.uf("bytes.of", []string{"String"}, "(Array Int Int)"), v.t)
 			ln = fmt.Sprintf("(str.len %s)", v.t)
 			s.assume(fmt.Sprintf("(forall ((i Int)) (! (and (<= 0 (select %s i)) (<= (select %s i) 255)) :pattern ((select %s i))))", arr, arr, arr))
+			// string([]byte(s)) == s
+			ob := s.uf("str.ofbytes", []string{"(Array Int Int)", "Int", "Int"}, "String")
+			s.assume(fmt.Sprintf("(= (%s %s 0 (str.len %s)) %s)", ob, arr, v.t, v.t))
 		}
 		s.setRegion(st, key, s.elemSort(sl.Elem()), fmt.Sprintf("(store %s %s %s)", s.region(st, key, s.elemSort(sl.Elem())), base, arr))
 		s.setVal(x, fmt.Sprintf("(mk-slice %s 0 %s %s)", base, ln, ln), st)
